@@ -99,6 +99,10 @@ fn lib_source(g: &mut Rng, session: bool) -> (String, Vec<String>) {
         ("visb", "{ a::: 10, h::: 20, v:: 30, extra: [lib.shallow] }".into()),
         ("visc", "{ a+: 1, h+:: 5, v+::: 6, n+: { z::: 2 } }".into()),
         ("visd", "{ a:: 0, zz::: 0, extra:: 0 } + { [k]: k + \"!\" for k in [\"a\", \"zz\", \"extra\"] }".into()),
+        // asserts that live in an INHERITED layer only: the outermost layer of these shared objects has none
+        ("derived", "lib.guarded + { x: -1 }".into()),
+        ("derived3", "lib.guarded + { y: 3 } + { z: lib.deep, x: -lib.shallow }".into()),
+        ("derivedok", "lib.guarded + { x: 7 } + { w: lib.deep }".into()),
         // empty containers, rendered differently by every manifestation format (multi-line, single-line, manifestJsonEx)
         ("empties", "{ a: [], o: {}, n: [[], {}, [1, []]], s: \"\" }".into()),
         ("tf", "std.thisFile".into()),
@@ -142,7 +146,7 @@ fn client_source(g: &mut Rng, names: &[String], via: &str) -> String {
     };
     let f = |g: &mut Rng| g.pick(names).clone();
     // object-typed library fields (those present in this library)
-    let objs: Vec<String> = names.iter().filter(|n| matches!(n.as_str(), "visa" | "visb" | "visc" | "visd" | "guarded" | "checked" | "nested" | "comp" | "viasuper" | "halfbad" | "outer" | "selfdep" | "plusdeep" | "plussub" | "plusobj")).cloned().collect();
+    let objs: Vec<String> = names.iter().filter(|n| matches!(n.as_str(), "visa" | "visb" | "visc" | "visd" | "guarded" | "checked" | "nested" | "comp" | "viasuper" | "halfbad" | "outer" | "selfdep" | "plusdeep" | "plussub" | "plusobj" | "derived" | "derived3" | "derivedok")).cloned().collect();
     let vis: Vec<String> = objs.iter().filter(|n| n.starts_with("vis")).cloned().collect();
     let fo = |g: &mut Rng| if !vis.is_empty() && g.chance(3, 5) { g.pick(&vis).clone() } else if objs.is_empty() { "nested".to_string() } else { g.pick(&objs).clone() };
     match g.below(62) {
